@@ -865,9 +865,9 @@ func (p *CodeBuilder) IndexRef(nidx int, src ...ast.Node) *CodeBuilder {
 		Val: &target.IndexExpr{X: args[0].Val, Index: args[1].Val},
 		Src: getSrc(src),
 	}
-	typs, _ := p.getIdxValTypes(typ, true, elemRef.Src)
+	typs, ivKind := p.getIdxValTypes(typ, true, elemRef.Src)
 	elemRef.Type = &refType{typ: typs[1]}
-	// TODO: check index type
+	p.checkIndex(args[1], typs[0], ivKind)
 	p.stk.Ret(2, elemRef)
 	return p
 }
@@ -914,6 +914,39 @@ retry:
 	src, pos, end := p.loadExpr(idxSrc)
 	p.panicCodeErrorf(pos, end, "invalid operation: %s (type %v does not support indexing)", src, typ)
 	return nil, 0
+}
+
+// checkIndex checks the index operand of a[i]: for a map it must be assignable to the key type;
+// otherwise it must be of integer type or an untyped constant representable as a non-negative int.
+func (p *CodeBuilder) checkIndex(idx *internal.Elem, key types.Type, ivKind int) {
+	if ivKind == ivTwoValue { // map
+		if err := matchType(p.pkg, idx, key, "map index"); err != nil {
+			panic(err)
+		}
+		return
+	}
+	if ivKind == ivMapStringAny {
+		return // member access on any: the key was made a string by the builder
+	}
+	src, pos, end := p.loadExpr(idx.Src)
+	if idx.Type == nil {
+		p.panicCodeErrorf(pos, end, "%s (no value) used as value", src)
+	}
+	if t, ok := getUnderlying(p.pkg, idx.Type).(*types.Basic); ok {
+		switch {
+		case t.Info()&types.IsUntyped != 0 && idx.CVal != nil:
+			if v := constant.ToInt(idx.CVal); v.Kind() == constant.Int && constant.Sign(v) >= 0 && !outOfRange(types.Int, v) {
+				return
+			}
+			p.panicCodeErrorf(pos, end, "invalid argument: index %s (constant %v) must be a non-negative integer representable as int", src, idx.CVal)
+		case t.Info()&types.IsInteger != 0:
+			if idx.CVal != nil && constant.Sign(idx.CVal) < 0 {
+				p.panicCodeErrorf(pos, end, "invalid argument: index %s (constant of type %v) must not be negative", src, idx.Type)
+			}
+			return
+		}
+	}
+	p.panicCodeErrorf(pos, end, "invalid argument: index %s (type %v) must be integer", src, idx.Type)
 }
 
 var (
